@@ -265,14 +265,14 @@ class PlainPerDocReader(base.PerDocumentReader, LineReader):
 
     def has_vector(self, docnum, fieldname):
         if self._find_doc(docnum):
-            if self._find_line(2, "VECTOR"):
+            if self._find_line(2, "VECTOR", fn=fieldname):
                 return True
         return False
 
     def vector(self, docnum, fieldname, format_):
         if not self._find_doc(docnum):
             raise Exception
-        if not self._find_line(2, "VECTOR"):
+        if not self._find_line(2, "VECTOR", fn=fieldname):
             raise Exception
 
         ids = []
